@@ -8,12 +8,13 @@ PROPS = "RlibModel.Props.C15"
 PROFILES = ["release"]
 SHRINK_SEP = None
 RULE = ("cases: every mask of u8/i8 for iter_submasks and iter_supermasks; u16/i16 exhaustively in the thorough tier (quick: every mask with "
-        "<= 4 free bits + 1/64 sample); the 8 wider types with <= 12 free bits (contiguous / top-bit / boundary-anchored / random patterns, "
+        "<= 6 free bits + a seeded 1/16 sample of the rest); the 8 wider types with <= 12 free bits (contiguous / top-bit / boundary-anchored / random patterns, "
         "plus 0, 1, MIN, MAX, all-ones); next_permutation on every sequence over {0,1,2} of length <= 7, every permutation of <= 8 "
-        "(quick: 7) distinct elements, random multisets incl. i64::MIN/MAX; iter_permutations on every multiset over {0,1,2} of length <= 7, "
+        "(quick: 7) distinct elements, random multisets incl. i64::MIN/MAX, sequences built so that the pivot value occurs again in the suffix, and walks of 1000 (thorough 5000) "
+        "successive steps from a few hundred (thorough 1000) start points of 8 distinct elements / 8-element multisets; iter_permutations on every multiset over {0,1,2} of length <= 7, "
         "0..8 distinct elements (unsorted input), random multisets; the three neighbour iterators on every grid <= 6x6 (0xk, kx0, 1x1 "
         "included) at every cell and at the cells just outside, plus large grids (< 2^62) at border cells. Collected outputs are compared "
-        "(long ones by length, first, last and a 64-bit digest). non-trivial = distinct in-domain case whose collected output has more "
+        "(long ones by length, first, last and a 64-bit digest; on an oracle mismatch the harness view names the first differing position and the elements around it). non-trivial = distinct in-domain case whose collected output has more "
         "than one element (masks, permutations), resp. a sequence of length >= 2 (next_permutation), resp. a non-empty grid (neighbours)")
 ASSUMPTIONS = [
     "the Lean model of rlib_iter is hand-written; it is tied to the code by running both on the same cases",
@@ -21,7 +22,7 @@ ASSUMPTIONS = [
     "(the harness also steps every sequence as Vec<Reverse<i128>> and as a struct ordered by a string key and reports a difference)",
     "neighbour iterators: n, m, i, j < 2^63 - 1 (no isize overflow in `i + x`)",
 ]
-TRUSTED_EXTRA = ["64-bit digest (FNV-style, written twice: Lean driver and Rust harness) used to compare collected outputs longer than 64 masks / 24 arrangements"]
+TRUSTED_EXTRA = ["64-bit digest (FNV-style, written twice: Lean driver and Rust harness) used to compare collected outputs longer than 32 masks / 24 arrangements"]
 MANIFEST = {
     "level": "proof",
     "text": ("Lean 4 theorems about the modelled iterators, for every width and every mask: iter_submasks yields exactly the submasks of x, once each, "
